@@ -697,7 +697,10 @@ func (mgr *Manager) importPcapJob(filenames []string, nextStreamID uint64, exist
 			mgr.resetStreamsDuringTaggingJob.Or(*resetStreams)
 			mgr.addedStreamsDuringTaggingJob.Or(*addedStreams)
 			mgr.invalidateTags(*updatedStreams, *resetStreams, *addedStreams)
-			mgr.invalidateConverters(updatedStreams)
+			// the data of updated and of reset streams changed, their converter output is outdated
+			changedStreams := updatedStreams.Copy()
+			changedStreams.Or(*resetStreams)
+			mgr.invalidateConverters(&changedStreams)
 			mgr.importGeneration++
 		}
 		// remove finished job from queue
